@@ -304,6 +304,8 @@ func init() {
 			c16Unbond("d1 unbond 100 BIP from c1", d1, Pub(1), 0, e18(100)),
 			c16MoveStake("d1 move 100 BIP c1->lowest ordinary candidate", d1, Pub(1), low, 0, e18(100)),
 			c16Declare("d2 declares candidate 302 with 2000 BIP (ties with the 2000-BIP candidate across the 100-candidate limit)", d2, Pub(302), e18(2000)),
+			// the lowest ordinary candidate (id 4) is removed at the boundary (block 2): from block 3 on its key is the key of a REMOVED candidate
+			c16MoveStake("d1 move 100 BIP c1->candidate 4 (removed at the boundary when delivered in block 3)", d1, Pub(1), low, 0, e18(100)),
 		}
 	}))
 	// the 101-candidate world without the genesis move: a move made by a transaction loses its target at the boundary
